@@ -2,7 +2,7 @@
 import itertools
 
 from engine.runner import mk_case
-from props.C03 import PARTS, DOCS as DOCS3, DEEP_DOC, DEEP_QUICK, DEEP_MORE
+from props.C03 import PARTS, DOCS as DOCS3, DEEP_DOC, DEEP_QUICK, DEEP_MORE, ALIAS_DOC, ALIAS_SHAPES
 
 U = "Union[int, bool, None, str]"
 DOCS = dict(DOCS3)
@@ -10,6 +10,7 @@ DOCS.update({
     "dc": "{'p': {'k': u1, 1: u2}, 'q': {'j': u3}, 'r': u1, 's': [u2, u3], 't': {}}",
     "dl2": "[{'k': u1}, [u2, u3], {'j': u2, 1: u3}, u1]",
     "d6": DEEP_DOC,
+    "da": ALIAS_DOC,
 })
 MODS = [None, "length", "dtype", "map_keys", "map_values"]
 MULTIS = [None, "first", "last", "single", "all"]
@@ -164,6 +165,13 @@ def cases(ctx):
         case = truth_case(sh, "d6", L)
         case["id"] = case["id"].replace("c04.truth.", "c04.truthdeep.")
         out.append(case)
+    # aliased documents (one container object under several branches): each branch has its own truthful path
+    for sh in (ALIAS_SHAPES[:4] if ctx.quick else ALIAS_SHAPES):
+        case = truth_case(sh, "da", L)
+        case["id"] = case["id"].replace("c04.truth.", "c04.truthalias.")
+        out.append(case)
+    for sh, mod, multi in [(("M", "c"), "length", "last"), (("l", "L"), "map_keys", "all"), (("X", "X"), "dtype", "first")]:
+        out.append(mod_case(sh, "da", mod, multi, L))
     deep_mods = [(("a", "b", "c", "L"), "dtype", "last"), (("a", "b", "c", "1", "d", "L"), None, "first"), (("l", "4", "L"), "length", "all"),
                  (("X", "X", "X", "X"), "dtype", None), (("a", "b", "c", "1", "d", "4", "M"), "length", "single")]
     for sh, mod, multi in (deep_mods[:3] if ctx.quick else deep_mods):
